@@ -31,3 +31,14 @@ package verifspec
 //@   ensures forall(k, 0, len(fields), !valuekind(fields[k].typ.kind) ==> dst[fields[k].prop] == old(src[fields[k].prop]))
 //@   ensures forall(k, 0, len(fields), valuekind(fields[k].typ.kind) ==> dst[fields[k].prop] == old(dst[fields[k].prop]) && copiedFrom(dst[fields[k].prop]) == old(src[fields[k].prop]) && copiedBy(dst[fields[k].prop]) == fields[k].typ)
 //@   ensures ref(src) != ref(dst) ==> forall(k, 0, len(fields), src[fields[k].prop] == old(src[fields[k].prop]))
+
+// Comparability of a struct type (C08: comparing interface values that hold an uncomparable type panics; the run-time
+// check reads typ.comparable).  The Go specification: a struct type is comparable iff all its field types are -- blank
+// fields included.  The callback of `fields.forEach` in the struct case of $newType: a field of an uncomparable type makes
+// the struct type uncomparable whatever the field is called; a comparable field changes nothing.
+//@ js types.js $newType:$kindStruct:forEach1
+//@ property C08
+//@   param f: desc
+//@   captured typ: flags comparable
+//@   ensures !f.typ.comparable ==> !typ.comparable
+//@   ensures f.typ.comparable ==> typ.comparable == old(typ.comparable)
